@@ -29,13 +29,72 @@ def diff_cells(a, b):
     return {i for i in range(n) if i >= len(a) or i >= len(b) or a[i] != b[i]}
 
 
-def msg_exhaustive(chk, relevant, cross_impl=False):
+def run_corpus(chk, exe, relevant=None):
+    """Replay the minimised past failures of this property first (corpus/<id>.txt, one request per line)."""
+    path = os.path.join(ROOT, "corpus", chk.pid + ".txt")
+    if not os.path.exists(path) or exe is None:
+        return
+    tr = os.path.join(WORK, "%s-corpus.tr" % chk.pid)
+    with open(path) as fin, open(tr, "w") as fout:
+        p = subprocess.run([exe, "eval"], stdin=fin, stdout=fout, stderr=subprocess.PIPE, text=True)
+    if p.returncode != 0:
+        chk.problems.append({"kind": "tie", "detail": "corpus replay failed", "names": ["corr eval < corpus/%s.txt" % chk.pid], "errors": p.stderr[-1000:]})
+        return
+    rep = chk.drive(tr, "corpus", parallel=False)
+    chk.cov["corpus_requests"] = rep["summary"]["lines"]
+    chk.cov["evaluations"] += rep["summary"]["lines"]
+    report_lines(chk, rep, relevant, "corpus")
+
+
+def report_lines(chk, rep, relevant, where, max_witness=5):
+    """Turn SPEC / MON / CORR lines of a line-mode driver report into witnesses / broken-correspondence problems."""
+    n = {"spec": 0, "corr": 0, "mon": 0}
+    for l in rep["SPEC"]:
+        p = parse_report_line(l)
+        if not p:
+            continue
+        d = diff_cells(p[2], p[3])
+        rel = sorted(d & relevant) if relevant is not None and p[1].startswith("msg ") else sorted(d)
+        if not rel:
+            continue
+        n["spec"] += 1
+        if n["spec"] <= max_witness:
+            names = [MSG_CELLS[i] if (p[1].startswith("msg ") and i < len(MSG_CELLS)) else "cell %d" % i for i in rel]
+            chk.add_witness("spec", p[1], "implementation differs from the specification in %s: impl=%s spec=%s (%s)" % (
+                names, [p[2][i] if i < len(p[2]) else None for i in rel], [p[3][i] if i < len(p[3]) else None for i in rel], where))
+    for l in rep["MON"]:
+        n["mon"] += 1
+        if n["mon"] <= max_witness:
+            m = re.match(r"MON (\d+) (.*)$", l)
+            chk.add_witness("mon", m.group(2) if m else l, "trace monitor rejected the implementation's trace (%s)" % where)
+    for l in rep["CORR"]:
+        p = parse_report_line(l)
+        if not p:
+            continue
+        d = diff_cells(p[2], p[3])
+        rel = sorted(d & relevant) if relevant is not None and p[1].startswith("msg ") else sorted(d)
+        if not rel:
+            continue
+        n["corr"] += 1
+        if n["corr"] <= 3:
+            chk.problems.append({"kind": "corr", "detail": "implementation differs from the model on `%s`: impl=%s model=%s (%s)" % (
+                p[1], " ".join(p[2]), " ".join(p[3]), where), "names": ["correspondence: `%s`" % p[1]]})
+    for l in rep["MODELSPEC"][:1]:
+        chk.problems.append({"kind": "proof", "detail": "model and executable specification disagree (a theorem says they cannot): " + l[:300],
+                             "names": ["model=spec on: " + l[:120]]})
+    for l in rep["BAD"][:1]:
+        chk.problems.append({"kind": "tie", "detail": "driver could not parse: " + l[:200], "names": ["driver protocol"]})
+    return n
+
+
+def msg_exhaustive(chk, relevant, mask="all", cross_impl=False, spec_relevant=None):
     """All 4 x 2^21 (+ invalid status) messages in block-digest mode; localise mismatching blocks line by line.
     relevant: cell indices that belong to the property."""
     exe = chk.cargo_build("std")
     if exe is None:
         return
-    tr = chk.transcript(exe, ["msg-blocks"], "blocks")
+    run_corpus(chk, exe, relevant)
+    tr = chk.transcript(exe, ["msg-blocks", mask], "blocks")
     if tr is None:
         return
     rep = chk.drive(tr, "blocks")
@@ -53,7 +112,7 @@ def msg_exhaustive(chk, relevant, cross_impl=False):
             p = parse_report_line(l)
             if p:
                 req = p[1].split()
-                bad_status.setdefault(int(req[2]), set()).add(tag)
+                bad_status.setdefault(int(req[3]), set()).add(tag)
     chk.cov["blocks_mismatching"] = len(bad_status)
     sample_tr = chk.transcript(exe, ["msg-lines", "raw", 0xE3, "--limit", 3], "sample")
     if sample_tr:
@@ -62,7 +121,11 @@ def msg_exhaustive(chk, relevant, cross_impl=False):
         return
     # localise: at most 4 status bytes, all four implementations each
     found = {"spec": 0, "corr": 0, "cross": 0}
-    for s in sorted(bad_status)[:4]:
+    # localise (at most 24 status bytes, spread over the range), all four implementations each
+    todo = sorted(bad_status)
+    if len(todo) > 24:
+        todo = todo[::max(1, len(todo) // 24)][:24]
+    for s in todo:
         per_impl = {}
         for impl in IMPLS:
             t = chk.transcript(exe, ["msg-lines", impl, s], "lines-%s-%d" % (impl, s))
@@ -76,6 +139,8 @@ def msg_exhaustive(chk, relevant, cross_impl=False):
                         continue
                     d = diff_cells(p[2], p[3])
                     rel = sorted(d & relevant)
+                    if kind == "spec" and spec_relevant is not None:
+                        rel = sorted(d & spec_relevant(impl))
                     if not rel:
                         continue
                     names = [MSG_CELLS[i - 0] if i < len(MSG_CELLS) else str(i) for i in rel]
@@ -120,20 +185,25 @@ def msg_exhaustive(chk, relevant, cross_impl=False):
 def c01(chk):
     chk.extract()
     chk.proofs(["Midi.Props.C01"])
-    msg_exhaustive(chk, C01_CELLS)
+    msg_exhaustive(chk, C01_CELLS, mask="c01")
     chk.assumptions += ["a third-party implementor is any record of three getters + from_bytes_unchecked (model: universally quantified `Factory`); the harness exercises two concrete ones"]
 
 
 def c02(chk):
     chk.extract()
     chk.proofs(["Midi.Props.C02"])
-    msg_exhaustive(chk, C02_CELLS)
+    msg_exhaustive(chk, C02_CELLS, mask="c02")
 
 
 def c03(chk):
     chk.extract()
     chk.proofs(["Midi.Props.C03"])
-    msg_exhaustive(chk, set(range(0, 34)), cross_impl=True)
+    # a deviation from the MIDI table that all implementations share is not a C03 violation (it is C01/C02's);
+    # the oracle here is (a) pairwise agreement of the four implementations on the same bytes and (b) the one
+    # permitted difference: StructuredShortMessage's own data bytes are the canonical ones
+    canon_cells = {1, 2, 3, 4, 5, 6, 27, 28, 29}
+    msg_exhaustive(chk, set(range(0, 34)), mask="all", cross_impl=True,
+                   spec_relevant=lambda impl: canon_cells if impl == "str" else set())
 
 
 REGISTRY = {"C01": c01, "C02": c02, "C03": c03}
